@@ -45,7 +45,7 @@ def generate(rng, tier):
     for sub in nested:
         ops.append(scen.cmd("create", scen.root_arg(sub), *gen.fmt_args(gen.pick_formats(rng, 1, 2))))
     fmts = list(observe.FORMATS) if rng.random() < 0.1 else gen.pick_formats(rng, 1, 3)
-    args = gen.fmt_args(fmts)
+    args = gen.fmt_args(fmts + ([rng.choice(fmts)] if rng.random() < 0.15 else []))  # sometimes a format is named twice
     if rng.random() < 0.25:
         args += ["-i", rng.choice(["*.xml", "notes", "z9", "sub/", "d1", "*.jpg"])]
     ops.append(scen.cmd("create", "@R", *args))
